@@ -25,3 +25,20 @@ package http
 //@ func EncodeCookieHeader
 //@   ensures  cookie: result == name ++ "=" ++ value ++ JoinDirs(directives, len(directives))
 //@   loop 1 invariant acc: Bld[b] == name ++ "=" ++ value ++ JoinDirs(directives, rangeindex + 1)
+
+// ---------------------------------------------------------------------------------------------
+// C20: the HTTP client used towards the identity provider carries the TLS configuration the pool
+// built (or shares) for this very OIDC configuration
+// ---------------------------------------------------------------------------------------------
+
+//@ import oidcv1 "github.com/istio-ecosystem/authservice/config/gen/go/v1/oidc"
+//@ import nethttp "net/http"
+
+//@ func NewHTTPClient
+//@   requires wf: cfg != nil && tlsPool != nil
+//@   requires default_transport: istype(deref(nethttp.DefaultTransport), *nethttp.Transport) && deref(nethttp.DefaultTransport).(*nethttp.Transport) != nil
+//@   modifies ghost PoolAdded, ghost HashIn, above(watermark())
+//@   ensures  err_nil: (result1 == nil) == (result0 != nil)
+//@   ensures  transport: result0 != nil ==> fresh(ClientTransport(result0))
+//@   ensures  tls_none: result0 != nil && TlsCA(box(cfg, *oidcv1.OIDCConfig)) == "" && TlsCAFile(box(cfg, *oidcv1.OIDCConfig)) == "" && TlsSkip(box(cfg, *oidcv1.OIDCConfig)) == nil ==> ClientTransport(result0).TLSClientConfig == nil
+//@   ensures  tls_trust: result0 != nil && !(TlsCA(box(cfg, *oidcv1.OIDCConfig)) == "" && TlsCAFile(box(cfg, *oidcv1.OIDCConfig)) == "" && TlsSkip(box(cfg, *oidcv1.OIDCConfig)) == nil) ==> ClientTransport(result0).TLSClientConfig != nil && TrustFor(ClientTransport(result0).TLSClientConfig, EncOf(box(cfg, *oidcv1.OIDCConfig)))
